@@ -434,7 +434,10 @@ func (f *consoleFam) play(l *Line, out *rec) error {
 			return w
 		}
 		var o1, o2 bytes.Buffer
-		n, err := mk(&o1).Write(in.Bytes())
+		wcfg := mk(&o1)
+		cfgBefore := fmt.Sprint(wcfg.PartsOrder, "|", wcfg.PartsExclude, "|", wcfg.FieldsOrder, "|", wcfg.FieldsExclude)
+		n, err := wcfg.Write(in.Bytes())
+		cfgIntact := cfgBefore == fmt.Sprint(wcfg.PartsOrder, "|", wcfg.PartsExclude, "|", wcfg.FieldsOrder, "|", wcfg.FieldsExclude)
 		mk(&o2).Write(in.Bytes())
 		errs := ""
 		if err != nil {
@@ -467,7 +470,7 @@ func (f *consoleFam) play(l *Line, out *rec) error {
 		zerolog.TimeFieldFormat = oldTFF
 		zerolog.TimestampFieldName, zerolog.LevelFieldName, zerolog.CallerFieldName, zerolog.MessageFieldName, zerolog.ErrorFieldName = oTS, oLV, oCA, oMS, oER
 		out.emit(map[string]interface{}{"a": "Case", "rename": ren, "ev": c.Ev, "vc": c.VC, "cfg": c.Cfg, "tset": c.TSet, "n": n, "inlen": in.Len(), "err": errs,
-			"same": bytes.Equal(o1.Bytes(), o2.Bytes()), "oneline": oneline, "gotparts": parts, "gotfields": fields, "line": line})
+			"same": bytes.Equal(o1.Bytes(), o2.Bytes()) && cfgIntact, "oneline": oneline, "gotparts": parts, "gotfields": fields, "line": line})
 	}
 	return nil
 }
